@@ -732,11 +732,17 @@ func (g *SummaryGraph) addCallArgEdge(mark MarkWithAccessPath, cond *ConditionIn
 	}
 
 	for _, callNode := range callNodes {
-		callNodeArg := callNode.FindArg(arg)
-		if callNodeArg == nil {
+		// the same value may be passed at several argument positions, e.g. f(x, x): every position gets the edge
+		found := false
+		for _, callNodeArg := range callNode.args {
+			if callNodeArg.ssaValue == arg {
+				g.addEdge(mark, callNodeArg, cond)
+				found = true
+			}
+		}
+		if !found {
 			panic("attempting to set call arg edge but no call arg node")
 		}
-		g.addEdge(mark, callNodeArg, cond)
 	}
 }
 
